@@ -43,10 +43,11 @@ Drop(f, x)   == [y \in (DOMAIN f) \ {x} |-> f[y]]
 Min(a, b)    == IF a <= b THEN a ELSE b
 Near(a, b)   == a - b <= 2 /\ b - a <= 2          \* microsecond rounding of nanosecond clocks
 
-NoCust == [loc |-> "none", k |-> 0, att |-> 0, pri |-> 0, dts |-> 0, mark |-> FALSE, via |-> "", t0 |-> 0, d0 |-> 0]
+NoCust == [loc |-> "none", k |-> 0, att |-> 0, pri |-> 0, dts |-> 0, mark |-> FALSE, via |-> "", t0 |-> 0, d0 |-> 0, qnow |-> 0]
 NewChan(t) == [t |-> t, st |-> "new", paused |-> FALSE, ppend |-> {}, emptying |-> FALSE, recv |-> 0, nreq |-> 0, nto |-> 0]
 NewClient == [c |-> "", tmo |-> 0, sample |-> 0, rdy |-> 0, pend |-> {}, ready |-> FALSE, sends |-> <<>>,
-              nfin |-> 0, nreq |-> 0, nmsg |-> 0]
+              nfin |-> 0, nreq |-> 0, nmsg |-> 0, sigAt |-> 0, sigNow |-> 0, evalAt |-> 0]
+StaleSlack == 1000000   \* microseconds: see AKRecv
 
 Init == /\ minfo = <<>> /\ tq = {} /\ owed = <<>> /\ copying = <<>>
         /\ chan = <<>> /\ top = <<>> /\ cust = <<>> /\ cl = <<>> /\ done = <<>> /\ stash = <<>>
@@ -167,34 +168,35 @@ AEmptyEnd(c) ==    \* ... and what was queued when it started; what arrived mean
 ACPauseBegin(c, p) ==
   /\ chan' = IF Has(chan, c) THEN [chan EXCEPT ![c].ppend = @ \cup {p}] ELSE chan
   /\ UNCHANGED <<minfo, tq, owed, copying, top, cust, cl, done, stash>>
-ACPauseEnd(c, p) ==
+ACPauseEnd(c, p, at, now) ==      \* every subscribed connection's pump has been signalled
   /\ chan' = IF Has(chan, c) THEN [chan EXCEPT ![c].paused = p, ![c].ppend = @ \ {p}] ELSE chan
-  /\ UNCHANGED <<minfo, tq, owed, copying, top, cust, cl, done, stash>>
+  /\ cl' = [k \in DOMAIN cl |-> IF cl[k].c = c THEN [cl[k] EXCEPT !.sigAt = at, !.sigNow = now] ELSE cl[k]]
+  /\ UNCHANGED <<minfo, tq, owed, copying, top, cust, done, stash>>
 
 ---------------------------------------------------------------------------
 (* Channel queue *)
 
 \* A message enters a channel's queue (a) as the topic pump's copy, (b) from limbo after REQ 0 or a timeout,
 \* (c) when its deferral is due.  C02/C01: never while another copy of it is queued, held or in flight.
-ACPutBegin(c, id, att) ==
+ACPutBegin(c, id, att, now) ==
   /\ Tracked(c)
   /\ LET t == chan[c].t  cu == Cu(c, id) IN
      \/ /\ cu.loc = "none"                                  \* (a)
         /\ Has(copying, t) /\ copying[t].id = id /\ c \in copying[t].rem
         /\ att = 0
         /\ copying' = [copying EXCEPT ![t].rem = @ \ {c}]
-        /\ cust' = cust @@ (<<c, id>> :> [NoCust EXCEPT !.loc = "Q", !.mark = FALSE])
+        /\ cust' = cust @@ (<<c, id>> :> [NoCust EXCEPT !.loc = "Q", !.mark = FALSE, !.qnow = now])
         /\ chan' = [chan EXCEPT ![c].recv = @ + 1]
         /\ done' = done
      \/ /\ cu.loc = "L" /\ cu.via \in {"req", "timeout"}    \* (b)
         /\ att = cu.att                                     \* C02/C05: attempts travel with the message
         /\ cu.via = "req" => cu.d0 = 0
-        /\ cust' = [cust EXCEPT ![<<c, id>>].loc = "Q", ![<<c, id>>].mark = FALSE]
+        /\ cust' = [cust EXCEPT ![<<c, id>>].loc = "Q", ![<<c, id>>].mark = FALSE, ![<<c, id>>].qnow = now]
         /\ done' = IF cu.via = "req" THEN Credit(cu.k, id, "q") ELSE done
         /\ UNCHANGED <<copying, chan>>
      \/ /\ cu.loc = "DL"                                    \* (c)
         /\ att = cu.att
-        /\ cust' = [cust EXCEPT ![<<c, id>>].loc = "Q", ![<<c, id>>].mark = FALSE]
+        /\ cust' = [cust EXCEPT ![<<c, id>>].loc = "Q", ![<<c, id>>].mark = FALSE, ![<<c, id>>].qnow = now]
         /\ UNCHANGED <<copying, chan, done>>
   /\ UNCHANGED <<minfo, tq, owed, top, cl, stash>>
 
@@ -207,14 +209,14 @@ ACRecvDeferred(c, id, now) ==
 
 \* C03: ready only if not paused, RDY > 0 and fewer unanswered, unexpired messages than RDY.
 \* The counter the code compares may lag behind custody (it is decremented after the pop), never lead it.
-AKEval(k, ready, rdy, inflight, paused) ==
+AKEval(k, ready, rdy, inflight, paused, at) ==
   /\ Has(cl, k)
   /\ LET c == cl[k].c IN
        ready => /\ ~paused /\ rdy > 0 /\ inflight < rdy
                 /\ rdy \in {cl[k].rdy} \cup cl[k].pend
                 /\ Has(chan, c) => (FALSE \in {chan[c].paused} \cup chan[c].ppend)
                 /\ Cardinality(HeldBy(k)) < rdy
-  /\ cl' = [cl EXCEPT ![k].ready = ready]
+  /\ cl' = [cl EXCEPT ![k].ready = ready, ![k].evalAt = at]
   /\ UNCHANGED <<minfo, tq, owed, copying, chan, top, cust, done, stash>>
 
 \* C02: only a queued message is handed out.  C03: one message per positive readiness evaluation.
@@ -224,6 +226,10 @@ AKRecv(k, c, id, att) ==
   /\ Tracked(c)
   /\ Cu(c, id).loc \in {"Q", "QM"}
   /\ att = Cu(c, id).att
+  \* C03: "nothing newer is sent": after a RDY change / CLS / pause has signalled this connection's pump, a message
+  \* that entered the queue only later (by more than StaleSlack on the daemon's clock, far beyond any scheduling
+  \* hiccup between the pump's evaluation and its select) cannot go out on an evaluation older than the signal
+  /\ ~(cl[k].evalAt < cl[k].sigAt /\ Cu(c, id).qnow - cl[k].sigNow > StaleSlack)
   /\ cust' = [cust EXCEPT ![<<c, id>>].loc = "P", ![<<c, id>>].k = k]
   /\ cl' = [cl EXCEPT ![k].ready = FALSE]
   /\ UNCHANGED <<minfo, tq, owed, copying, chan, top, done, stash>>
@@ -386,6 +392,11 @@ AKRdyBegin(k, n) ==
   /\ UNCHANGED <<minfo, tq, owed, copying, chan, top, cust, done, stash>>
 AKRdyEnd(k, n) ==
   /\ cl' = IF Has(cl, k) THEN [cl EXCEPT ![k].rdy = n, ![k].pend = @ \ {n}] ELSE cl
+  /\ UNCHANGED <<minfo, tq, owed, copying, chan, top, cust, done, stash>>
+
+\* the pump of k has been signalled (ReadyStateChan) after a RDY change / CLS
+AKRdyDone(k, at, now) ==
+  /\ cl' = IF Has(cl, k) THEN [cl EXCEPT ![k].sigAt = at, ![k].sigNow = now] ELSE cl
   /\ UNCHANGED <<minfo, tq, owed, copying, chan, top, cust, done, stash>>
 
 \* C02: an accepted FIN/REQ/TOUCH did what it says to that message; a refused one did nothing
